@@ -365,6 +365,36 @@ def run(prog, rep, tier):
     if not ok:
         rep.violation(R185, inst, "the Ctrl-C handler is not installed before the first worker thread is started; workers create temporary files immediately, so an interrupt during start-up kills the process with the files left behind")
 
+    # ------------------------------------------------------------ R18.7 the handler can get at the channel registry promptly
+    # The Ctrl-C handler needs the *write* lock of the channel registry (to drop all channels so that the
+    # coordinator's wait returns).  The coordinator holds the registry's *read* guard while it is
+    # blocked in `Select::select()` with no time limit, so the handler waits until some worker sends
+    # the next message - which, during a long extraction or a long search, is when that work is done.
+    R187 = rep.rule("R18.7", "the coordinator does not hold the registry read guard across an untimed wait")
+    rmb = prog.body("s4::processing_loop::recv_many_chan", required=False) or prog.body("s4::recv_many_chan", required=False)
+    plb7 = prog.body("s4::processing_loop")
+    if rmb is None:
+        raise CheckerError("recv_many_chan not found")
+    untimed = [c for c in rmb.live_calls() if c.d.startswith("crossbeam_channel::Select") and c.d.split("::")[-1] == "select"]
+    # the caller passes the guarded map in: the read guard is alive across the call
+    callers = [c for c in plb7.live_calls() if c.d.endswith("::recv_many_chan")]
+    guard_read = False
+    for c in callers:
+        for a in c.args:
+            if a[0] == "k":
+                continue
+            for x in plb7.origins(a, through_calls=("::deref", "::unwrap", "Deref>::deref")):
+                if x[0] == "call" and x[2].endswith("RwLock::<T>::read"):
+                    guard_read = True
+    hb7 = prog.body("s4::set_signal_handler::{closure#0}")
+    hwrite = any(c.d.endswith("RwLock::<T>::write") and "MAP_PATHID_CHANRECVDATUM" in " ".join(str(x) for x in hb7.origins(c.args[0], through_calls=("::deref", "Deref>::deref"))) for c in hb7.live_calls())
+    rep.examined(R187, "s4::recv_many_chan|untimed-select-under-read-guard", sample={"untimed_select_calls": [c.line for c in untimed], "caller_holds_read_guard_of_registry": guard_read, "handler_takes_write_lock_of_registry": hwrite})
+    if not callers:
+        raise CheckerError("processing_loop does not call recv_many_chan")
+    if untimed and guard_read and hwrite:
+        rep.violation(R187, "s4::recv_many_chan|untimed-select-under-read-guard", "the coordinator blocks in Select::select() (line %d) without a time limit while holding the channel registry's read guard, and the Ctrl-C handler "
+                      "needs that registry's write lock; an interrupt during a long extraction or search takes effect only when the next message arrives (600 MB .evtx.xz: exit 4.2 s after SIGINT, i.e. when extraction is finished)" % untimed[0].line)
+
     return rep.finish(
         "Static necessary-condition check of temporary-file cleanup: worker JoinHandles are kept and joined on every non-interrupted path out of "
         "processing_loop; the temporary file is created and listed inside the registry's write guard and the handler never releases that guard "
